@@ -13,6 +13,8 @@ import time
 
 VERIF = os.path.dirname(os.path.dirname(os.path.abspath(__file__)))
 REPO = os.environ.get("PYREFACT_REPO", "/repo")
+# evidence/ and replays/ under /verif describe /repo only: a self-test run against a scratch copy (PYREFACT_REPO) writes elsewhere
+OUT = os.environ.get("VERIF_OUT") or (VERIF if os.path.realpath(REPO) == "/repo" else os.path.join("/tmp", "pyvc_selftest_out"))
 KNOWN_PATH = os.path.join(VERIF, "known_findings.json")
 BASELINE_PATH = os.path.join(VERIF, "baseline", "obligations.json")
 
@@ -38,7 +40,11 @@ def known_match(pid, kind, key, known):
 
 
 def safe(name):
-    return re.sub(r"[^A-Za-z0-9_.-]+", "_", name)[:150]
+    out = re.sub(r"[^A-Za-z0-9_.-]+", "_", name)[:150]
+    if out != name:
+        import hashlib
+        out += "-" + hashlib.sha1(name.encode()).hexdigest()[:8]      # distinct keys must not share a replay file
+    return out
 
 
 class Run:
@@ -55,7 +61,7 @@ class Run:
         self.standin_results = []
         self.undecided = []
         self.errors = []
-        self.replay_dir = os.path.join(VERIF, "replays", pid)
+        self.replay_dir = os.path.join(OUT, "replays", pid)
         os.makedirs(self.replay_dir, exist_ok=True)
         for f in os.listdir(self.replay_dir):          # replay files of earlier runs are stale
             if f.endswith(".json"):
@@ -233,8 +239,8 @@ class Run:
         }
         ev = {"property_id": self.pid, "tier": self.tier, "seed": self.seed, "level": level, "coverage": cov,
               "assumptions": sorted(assumptions), "wall_s": round(time.time() - self.t0, 2), "violations": len(seen)}
-        os.makedirs(os.path.join(VERIF, "evidence"), exist_ok=True)
-        out = os.path.join(VERIF, "evidence", f"{self.pid}.json")
+        os.makedirs(os.path.join(OUT, "evidence"), exist_ok=True)
+        out = os.path.join(OUT, "evidence", f"{self.pid}.json")
         try:
             import jsonschema
             jsonschema.validate(ev, json.load(open("/root/.vp/EVIDENCE.schema.json")))
